@@ -1,6 +1,7 @@
 package checks
 
 import (
+	"bytes"
 	"encoding/json"
 	"fmt"
 	"sort"
@@ -120,6 +121,8 @@ func c14Exec(scn c14Scn, ch *env.Chooser) *c14Obs {
 		return o
 	}
 	w.T.Ch = ch
+	// like the real transport: every reply is a window into one reused buffer
+	w.T.Window, w.T.Poison = true, 0xAA
 	repo := w.BMC.Cfg.Repo
 	o.Snaps = []*ref.Repo{repo.Clone()}
 	nextID := uint16(0x7000)
@@ -254,6 +257,13 @@ func c14Match(o *c14Obs, state *ref.Repo) (string, string) {
 		}
 		if name, got, exp := compareFields(f, g); name != "" {
 			return "C14/field/" + name, fmt.Sprintf("record %#04x field %s = %s, reference decoding %s", id, name, got, exp)
+		}
+		// the record's own bytes, as the layer exposes them, must still be the
+		// record's (not whatever later replies left in the receive buffer)
+		body := want[uint16(id)]
+		_, consumed, _, _ := ref.IDString(body[42], body[43:])
+		if !bytes.Equal(g.LayerContents(), body[:43+consumed]) || !bytes.Equal(g.LayerPayload(), body[43+consumed:]) {
+			return "C14/field/layer-bytes", fmt.Sprintf("record %#04x: layer contents % x payload % x, the record is % x", id, g.LayerContents(), g.LayerPayload(), body)
 		}
 	}
 	for id := range o.Got {
